@@ -24,6 +24,9 @@ EXTRA = [
     _c("TSI2r2", "TSI", period=2, round_value=2, name_suffix="r2"),
     _c("STOCHr8", "STOCH", period=2, slow_period=2, smoothing_k=2, round_value=8, name_suffix="r8"),
     _c("COUNTclose", "Counter", input_value="close", count_value=9),
+    _c("MACD32swapped", "MACD", fast_period=3, slow_period=2, signal_period=2, name_suffix="sw"),
+    _c("HMA2_", "HMA", period=2, name_suffix="p2"),
+    _c("HMA3_", "HMA", period=3, name_suffix="p3"),
 ]
 for _x in EXTRA:
     BY_LABEL[_x["label"]] = _x
